@@ -34,12 +34,12 @@ type LiveOpts struct {
 	Brief       bool
 	// Device behaviour knobs (legal variants).
 	HostKeyQ, NeedEnPw, NoEnable, PromptSp, PagerSet, WidthSet, LegalWarn, JoinReplies bool
-	SaveConfirm                                                        bool
-	SaveBusy                                                           int
-	Chunk, Latency                                                     bool
-	SchedSeed                                                          int // seed of the chunking / latency schedule; 0 = none
-	Startup                                                            *cisco.Conf // nil = same as running
-	World                                                              *world.World // reuse this basedir (not removed afterwards)
+	SaveConfirm                                                                        bool
+	SaveBusy                                                                           int
+	Chunk, Latency                                                                     bool
+	SchedSeed                                                                          int          // seed of the chunking / latency schedule; 0 = none
+	Startup                                                                            *cisco.Conf  // nil = same as running
+	World                                                                              *world.World // reuse this basedir (not removed afterwards)
 }
 
 type Status struct {
